@@ -1,5 +1,6 @@
 import Model.Policy
 import Model.TagParser
+import Model.Cache
 /-!
 # The four checkers (`vakt/checker.py`)
 
@@ -132,5 +133,65 @@ def fits (k : CheckerKind) (p : Policy) (f : Field) (what : PyVal) (q : Inquiry)
   | .exact => exactFits p f what
   | .fuzzy => fuzzyFits p f what
   | .rules => rulesFits p f what (some q)
+
+end Vakt
+
+namespace Vakt
+open PyVal
+
+/-! ## The regex checker with its compile cache made explicit (for C03 / C16) -/
+
+/-- what `compile_regex` yields for a tagged element (the cache key is `(element, start, end)`) -/
+inductive Compiled where
+  | invalidPattern          -- `InvalidPatternError` (unbalanced delimiters); raised, never cached
+  | reError                 -- `re.error` from a segment; raised, never cached
+  | re (r : Re)
+  deriving Repr, Inhabited
+
+abbrev CKey := List Char × Char × Char
+
+def compileKey (k : CKey) : Compiled :=
+  match TagParser.scan k.2.1 k.2.2 k.1 with
+  | Option.none => .invalidPattern
+  | some ps => match piecesRe ps with
+    | .ok r _ => .re r
+    | _ => .reError
+
+def Compiled.keep : Compiled → Bool
+  | .re _ => true
+  | _ => false
+
+/-- the rest of one loop iteration once the compiled pattern is at hand -/
+def elemWith (c : Compiled) (what : PyVal) : Step :=
+  match c with
+  | .invalidPattern => .done (.ok false)
+  | .reError => .done (.error .raised)
+  | .re r => match what with
+    | .str w => if r.accepts w then .done (.ok true) else .next
+    | _ => .done (.error .raised)
+
+/-- `RegexChecker.fits` threading the `lru_cache` of `self.compile` -/
+def regexLoopC (stag etag : Char) (what : PyVal) : Lru CKey Compiled → List Elem → R × Lru CKey Compiled
+  | c, [] => (.ok false, c)
+  | c, .str e :: rest =>
+    if !TagParser.tagged stag etag e then
+      (if pyEq (.str e) what then (.ok true, c) else regexLoopC stag etag what c rest)
+    else
+      let r := c.call compileKey Compiled.keep (e, stag, etag)
+      match elemWith r.1 what with
+      | .next => regexLoopC stag etag what r.2.2 rest
+      | .done x => (x, r.2.2)
+  | c, _ :: rest => regexLoopC stag etag what c rest
+
+def regexFitsC (c : Lru CKey Compiled) (p : Policy) (f : Field) (what : PyVal) : R × Lru CKey Compiled :=
+  regexLoopC p.stag p.etag what c (p.field f)
+
+/-- a history of `fits` calls through one checker -/
+def runFits : Lru CKey Compiled → List (Policy × Field × PyVal) → List R × Lru CKey Compiled
+  | c, [] => ([], c)
+  | c, (p, f, w) :: rest =>
+    let r := regexFitsC c p f w
+    let t := runFits r.2 rest
+    (r.1 :: t.1, t.2)
 
 end Vakt
